@@ -277,19 +277,19 @@ impl Views {
     fn new() -> Self {
         Views { views: vec![] }
     }
-    /// record a projection under a label; equal projections of the same kind share one view
+    /// record a projection under (kind, label); equal projections share one view
     fn add(&mut self, kind: &str, label: &str, p: Vec<J>) {
         let p = J::Array(p);
         for v in self.views.iter_mut() {
-            if v["k"] == kind && v["p"] == p {
-                v["from"].as_array_mut().expect("from").push(json!(label));
+            if v["k"] == "ok" && v["p"] == p {
+                v["as"].as_array_mut().expect("as").push(json!([kind, label]));
                 return;
             }
         }
-        self.views.push(json!({"k": kind, "from": [label], "p": p}));
+        self.views.push(json!({"k": "ok", "as": [[kind, label]], "p": p}));
     }
     fn fail(&mut self, label: &str, msg: String, text: &str) {
-        self.views.push(json!({"k": "err", "from": [label], "msg": msg, "text": text}));
+        self.views.push(json!({"k": "err", "as": [["err", label]], "msg": msg, "text": text}));
     }
 }
 
@@ -298,7 +298,7 @@ fn pid(i: usize) -> PolicyId {
 }
 
 /// the policies of a parsed set in id order policy0, policy1, ..
-fn set_in_order(ps: &PolicySet) -> R<Vec<J>> {
+pub fn set_in_order(ps: &PolicySet) -> R<Vec<J>> {
     let n = ps.num_of_policies() + ps.num_of_templates();
     let mut out = vec![];
     for i in 0..n {
@@ -508,7 +508,7 @@ fn round_trips(text: &str, each: &[String], v: &mut Views) {
     }
 }
 
-fn case_seed(case: &J, salt: u64) -> u64 {
+pub fn case_seed(case: &J, salt: u64) -> u64 {
     let id = case.get("id").map(|x| x.to_string()).unwrap_or_default();
     let mut h: u64 = 0xcbf29ce484222325 ^ salt.wrapping_mul(0x9E3779B97F4A7C15);
     for b in id.bytes() {
@@ -522,12 +522,12 @@ fn case_seed(case: &J, salt: u64) -> u64 {
     h
 }
 
-const STYLES: [&str; 3] = ["min", "full", "red"];
 
 fn run_ok(case: &J) -> R<J> {
     let toks = case["toks"].as_array().ok_or("toks")?;
     let mut events = vec![];
-    for (si, st) in STYLES.iter().enumerate() {
+    let styles = case["styles"].as_array().ok_or("styles")?;
+    for (si, st) in styles.iter().enumerate() {
         let ts = toks.get(si).and_then(|x| x.as_array()).ok_or("style toks")?;
         let mut rng = StdRng::seed_from_u64(case_seed(case, si as u64));
         let parts = split_policies(ts);
